@@ -104,6 +104,9 @@ var programs = []prog{
 	mkProg("limit1", "S:1:R,1,2:2:0:0:0 S:2:R,1,3:3:0:0:0 O:lim=1"),
 	mkProg("backoff", "S:1:F,1,11,R,1,2:2:0:0:0 S:2:R,1,3:3:0:0:0 O:bo=50"),
 	mkProg("backoff-adapter-timeouts", "S:1:R,1,2:2:0:0:0 S:2:R,1,3:3:0:0:0 H:5:0 O:bo=50,dl=1"),
+	// an injected Lookup failure of the hook / delete / paused-retry consumers is a transient MISS (ErrRecordNotFound from a
+	// replica that does not have the run yet): like any lookup error it must be retried, never acknowledged
+	mkProg("hooks-lookup-miss", "S:1:R,1,2:2:0:0:0 S:2:R,1,3:3:0:0:0 H:5:0 D:0 O:nf=1"),
 	mkProg("lagged", "S:1:R,1,2:2:0:0:30 S:2:R,1,3:3:0:0:0 H:5:0"),
 	mkProg("lagged2", "S:1:R,1,2:2:0:0:30 S:2:R,1,3:3:0:0:40 O:inst=2"),
 	// connectors (connector.go): one consumer failing its first invocation per event; two shards + a second connector with three
@@ -128,6 +131,7 @@ var ctlPrograms = []prog{
 	mkProg("ctl-hooks-cancelled-call", "S:1:R,1,2:2:0:0:0 C:2:R,1,3:3 S:3:R,1,4:4:0:0:0 H:3:1001 H:4:1002 H:5:1001 D:1 O:retry=100"),
 	mkProg("ctl-timeout", "S:1:R,1,2:2:0:0:0 T:2:100:R,1,3:3:0 C:2:R,1,3:3 D:0"),
 	mkProg("ctl-two-callbacks", "S:1:R,1,2:2:0:0:0 C:2:B,P,1,X,1:3 C:2:R,1,3:3 S:3:R,1,4:4:0:0:0 H:3:0 H:4:0 D:0"),
+	mkProg("ctl-hooks-lookup-miss", "S:1:R,1,2:2:0:0:0 C:2:R,1,3:3 S:3:R,1,4:4:0:0:0 H:3:0 H:4:0 H:5:0 D:1 O:retry=100,nf=1"),
 	mkProg("ctl-delete-fails-twice", "S:1:R,1,2:2:0:0:0 C:2:R,1,3:3 S:3:R,1,4:4:0:0:0 H:4:0 D:4 O:retry=100"),
 	mkProg("ctl-stepctl", "S:1:B,P,1,X,1:2:0:0:0 S:2:R,1,3:3:0:0:0 H:3:0 H:4:0 D:1 O:retry=100,stamp=1"),
 	// pause / cancel taken from inside a function through a SEPARATE controller (extctl, harness-only): the engine's own
@@ -230,6 +234,25 @@ func singleFaults(p prog, base []string, recovery []string, emit func(string, bo
 			if sample != nil && !sample() {
 				continue
 			}
+			ops := withFault(base, cp.op, fmt.Sprintf("%s.%d.%s", cp.kind, cp.occ, f))
+			ops = append(ops, recovery...)
+			emit(scenario(p, ops), true)
+		}
+	}
+}
+
+// single faults only at the call positions accepted by [keep] (operation, call kind)
+func singleFaultsAt(p prog, base []string, recovery []string, emit func(string, bool), keep func(op, kind string) bool) {
+	obs := runEngine("eng", strings.Fields(scenario(p, base))[1:])
+	for _, cp := range callPositions(obs) {
+		if !keep(base[cp.op], cp.kind) {
+			continue
+		}
+		fs := []string{"eb", "ll", "cr"}
+		if faultableMut[cp.kind] {
+			fs = append(fs, "ea")
+		}
+		for _, f := range fs {
 			ops := withFault(base, cp.op, fmt.Sprintf("%s.%d.%s", cp.kind, cp.occ, f))
 			ops = append(ops, recovery...)
 			emit(scenario(p, ops), true)
@@ -441,6 +464,25 @@ func genControl(p *params, prop string, emit func(string, bool)) {
 			two = append(two, "ct:2:3")
 			two = append(two, pr.rounds(3)...)
 			emit(scenario(pr, two), true)
+		}
+		// every single fault at every call of the hook, delete and paused-retry consumers on a history that pauses, resumes,
+		// completes and deletes: the event of a failed handling is never acknowledged, the hook / scrub happens on redelivery
+		{
+			h := []string{"tr:1:0:4"}
+			h = append(h, pr.rounds(2)...)
+			h = append(h, "ct:1:0")
+			h = append(h, pr.rounds(2)...)
+			h = append(h, "ct:1:1")
+			h = append(h, pr.rounds(2)...)
+			h = append(h, "cb:1:2", adv(100))
+			h = append(h, pr.rounds(3)...)
+			h = append(h, "ct:1:3")
+			h = append(h, pr.rounds(2)...)
+			rec := append([]string{adv(300)}, pr.rounds(4)...)
+			singleFaultsAt(pr, h, rec, emit, func(op, kind string) bool {
+				return strings.HasPrefix(op, "st:") && (strings.Contains(op, "/h") || strings.HasSuffix(op, "/d") || strings.HasSuffix(op, "/r")) &&
+					(kind == "LK" || kind == "AK" || kind == "ST")
+			})
 		}
 		ctls := []string{"ct:1:0", "ct:1:1", "ct:1:2", "ct:1:3", "ui:1:0", "ui:1:1", "ui:1:2", "ui:1:3", "cb:1:2", "tr:1:0:6"}
 		// one RunStateController used for two or three consecutive changes (ctr = re-use the controller of the previous ct)
